@@ -9,7 +9,7 @@ import glob, json, os, subprocess, sys
 HERE = os.path.dirname(os.path.dirname(os.path.abspath(__file__)))
 label = sys.argv[1]
 props = {json.loads(l)['id']: json.loads(l) for l in open(os.path.join(HERE, 'properties.jsonl'))}
-TEMPLATE = open(os.path.join(HERE, 'tools', 'subagent_prompt_template.txt')).read()
+TEMPLATE = open(os.path.join(HERE, 'tools', os.environ.get('YPV_PROMPT_TEMPLATE', 'subagent_prompt_template.txt'))).read()
 os.makedirs('/tmp/wt-out', exist_ok=True)
 for pid in sys.argv[2:]:
     wt = '/tmp/wt/' + pid
